@@ -502,7 +502,7 @@ Proof.
   - unfold process_snapshot. apply np_fold; [intros; apply np_process_row; assumption|exact H].
   - exact H.
   - exact H.
-  - eapply np_ocr; [apply ocr_order_status|exact H].
+  - exact H.
   - intros t Ht. destruct Ht.
 Qed.
 Theorem lrun_np cs es : np (lrun (lstate0 cs) es).
